@@ -491,6 +491,16 @@ fn run(args: &Args, rep: &mut Report) {
         (Some(MColor::Ansi(1)), None, None),
         (None, Some(MColor::Ansi(12)), None),
         (Some(MColor::Ansi(12)), Some(MColor::Ansi(3)), None),
+        // every pairing of colour kinds in (fg, bg), so that an interaction between two slots and an effect cannot hide
+        (Some(MColor::Ansi(3)), Some(MColor::Ansi(12)), None),
+        (Some(MColor::Ansi(9)), Some(MColor::Idx(100)), None),
+        (Some(MColor::Ansi(1)), Some(MColor::Rgb(4, 5, 6)), None),
+        (Some(MColor::Idx(20)), Some(MColor::Ansi(2)), None),
+        (Some(MColor::Idx(21)), Some(MColor::Idx(22)), Some(MColor::Idx(23))),
+        (Some(MColor::Rgb(7, 8, 9)), Some(MColor::Ansi(10)), None),
+        (Some(MColor::Rgb(10, 20, 30)), Some(MColor::Idx(40)), None),
+        (Some(MColor::Rgb(10, 20, 30)), Some(MColor::Rgb(40, 50, 60)), None),
+        (Some(MColor::Rgb(1, 1, 1)), Some(MColor::Rgb(1, 1, 1)), Some(MColor::Rgb(1, 1, 1))),
         (Some(MColor::Idx(200)), Some(MColor::Rgb(1, 2, 3)), Some(MColor::Idx(9))),
         (Some(MColor::Rgb(255, 0, 128)), None, Some(MColor::Rgb(9, 8, 7))),
     ];
